@@ -508,6 +508,29 @@ Definition reduce_inst (w : world) (st : state) (io : inst_rec) : reduced :=
                    end
                 :: map RInt (in_attrs io)).
 
+(* ------------------------------------------------------------------ vocabulary of the regenerated kernel *)
+(* harness/translate/reduce.py re-derives Gen/ReduceKernel.v from the source text in these terms;
+   Proofs/PickleGen.v proves the regenerated functions equal to the hand-written ones above. *)
+
+Definition opt_is_none {A} (x : option A) : bool := match x with None => true | Some _ => false end.
+
+(* how a class / an interface / the metaclass `type` sits in an argument tuple *)
+Definition class_ref (w : world) (c : nat) : reduced := ByName (cname w c).
+Definition iface_refs (w : world) (is : list nat) : list reduced := map (fun i => ByName (iname w i)) is.
+Definition type_ref : reduced := ByName g_type.
+
+(* InstanceDeclarations.get(key) / InstanceDeclarations[key] = spec *)
+Definition cache_get (st : state) (k : ckey) : option nat := assoc_key k (st_cache st).
+Definition cache_set (st : state) (k : ckey) (p : nat) : state :=
+  mkState (st_impl st) (st_cprov_of st) (st_cprovs st) (st_provs st) ((k, p) :: st_cache st) (st_insts st).
+
+(* ProvidesClass(cls, *interfaces): the constructor (its implementedBy(cls) call, the new object) *)
+Definition new_provides (fuel : nat) (w : world) (st : state) (c : nat) (is : list nat) : state * nat :=
+  let st1 := implementedBy fuel w st c in
+  (mkState (st_impl st1) (st_cprov_of st1) (st_cprovs st1)
+           (st_provs st1 ++ [mkProv c is (build_bases fuel w st1 c is)])
+           (st_cache st1) (st_insts st1), List.length (st_provs st1)).
+
 (* ------------------------------------------------------------------ unpickling *)
 
 Fixpoint all_some {A} (l : list (option A)) : option (list A) :=
